@@ -693,7 +693,7 @@ class PPG3204():
                 data_ch.append( str2array(b[k+2:-1], bool).astype(np.uint8) )
                 addr += bit_count
 
-            data.append(np.array(data_ch))
+            data.append(np.concatenate(data_ch))
         return np.array(data)
 
 
